@@ -282,7 +282,7 @@ def gen_tree(rng, tier):
     ws = rng.sample(range(1, 200), n * (n - 1) // 2) if rng.random() < .6 else rng.sample([w for w in range(-150, 100) if w], n * (n - 1) // 2)
     wedges = [[a, b, rs(Fraction(ws.pop(), 64))] for a in range(n) for b in range(a + 1, n)]
     return {"names": names, "n": n, "wedges": wedges, "root": rng.randrange(n), "tan": rng.random() < .3 and n >= 3,
-            "cls": rng.randrange(n)}
+            "cls": rng.randrange(n), "scale_exp": rng.choice([0, 0, 0, -30, -40, 20])}    # weights on another scale (x 2**e) rank the same
 
 
 def run_tree(case, drv):
@@ -294,6 +294,7 @@ def run_tree(case, drv):
     W = {}
     for a, b, w in case["wedges"]:
         W[(names[a], names[b])] = W[(names[b], names[a])] = float(Fraction(w))
+    scale = 2.0 ** case.get("scale_exp", 0)
     # columns with states that are neither 0..k-1 nor in order of first appearance; the weight function is handed the data columns
     # and must see the data values themselves (a user-supplied callable need not be invariant under relabelling)
     raw = {nm: [3 + (i % 2), 1, 3 + (i % 2), 7, 1, 7][: 4 + (i % 3)] + [1] * (2 - (i % 3)) for i, nm in enumerate(names)}
@@ -302,9 +303,9 @@ def run_tree(case, drv):
     def wfn(u, v):
         same = [int(x) for x in list(u)] == raw[u.name] and [int(x) for x in list(v)] == raw[v.name]
         w = W[(u.name, v.name)]
-        return w if same else 4.0 - w          # weights are in (0, 3.2): re-coded columns reverse the preference order
+        return (w if same else 4.0 - w) * scale          # weights are in (0, 3.2): re-coded columns reverse the preference order
     root = case["root"]
-    tags = dict(n=n, tan=case["tan"])
+    tags = dict(n=n, tan=case["tan"], scale_exp=case.get("scale_exp", 0))
     try:
         if case["tan"]:
             cls = case["cls"]
